@@ -131,7 +131,9 @@ def gen_model(ch: Chooser, benign: bool):
                         # a slash / a character literal inside the type parameters
                         {"base": "character", "len": "8/2", "kind": None}, {"base": "integer", "kind": "16/2"},
                         {"base": "character", "len": "len('axb')" if benign else "len('a<b')", "kind": None},
-                        {"base": "real", "kind": "kind(1.0d0)*8/8"}])
+                        {"base": "real", "kind": "kind(1.0d0)*8/8"},
+                        # a backslash is an ordinary character of a literal
+                        {"base": "character", "len": "3", "kind": "kind('axb')" if benign else "kind('a\\d')"}])
         d = _var(name, ts)
         shape = ch.choice([None, None, "(3)", "(2, 0:4)", "(:)", "(:, :)"])
         if where == "arg":
